@@ -1,6 +1,6 @@
 package main
 
-// C01 — no input makes a decoder panic: EXP, REC, BND, DIV, NILF, TA.
+// C01 — no input makes a decoder panic: EXP, REC, BND, DIV, NILF, TA, RECUR (shared with C02).
 
 import (
 	"fmt"
@@ -15,7 +15,7 @@ import (
 func init() { register("C01", true, checkC01) }
 
 func checkC01(p *Prog, r *Report) {
-	r.Explain("Over all library functions reachable from the decode entry points (VTA call graph): EXP enumerates explicit panics / process exits; BND enumerates every index, slice, string index and length-requiring call and discharges each with the E3 bounds prover (intervals + difference constraints from definitions, dominating branch conditions, verified callee contracts under the nil-error edge, caller-side required lengths; entry points may require nothing of their arguments); DIV every integer division; NILF every call through a function value must be dominated by its nil test; TA every non-comma-ok type assertion; REC: obligations inside functions that are only reachable through a frame whose deferred closure calls recover() and assigns the error result are discharged by containment (run-time panics implement error). Nil-pointer dereferences in general, panics inside dependencies and stack exhaustion (C02 RECUR) are not decided here.")
+	r.Explain("Over all library functions reachable from the decode entry points (VTA call graph): EXP enumerates explicit panics / process exits; BND enumerates every index, slice, string index and length-requiring call and discharges each with the E3 bounds prover (intervals + difference constraints from definitions, dominating branch conditions, verified callee contracts under the nil-error edge, caller-side required lengths; entry points may require nothing of their arguments); DIV every integer division; NILF every call through a function value must be dominated by its nil test; TA every non-comma-ok type assertion; REC: obligations inside functions that are only reachable through a frame whose deferred closure calls recover() and assigns the error result are discharged by containment (run-time panics implement error). RECUR (shared with C02): every call-graph cycle is depth-counted, a parent-chain delegation or a constant-argument call, so the stack depth does not follow the input (stack exhaustion is fatal and no recover frame contains it). Nil-pointer dereferences in general and panics inside dependencies are not decided here.")
 	r.Trusted("bufio.Reader.Peek(n): err == nil ⇒ len = n; Discard(n): err == nil ⇒ n discarded", "io.Reader contract 0 <= n <= len(p)", "encoding/binary UintN/PutUintN require len >= N/8", "copy, append, map reads, string(b) never panic", "errors.New results and never-reassigned package-level error variables are non-nil", "int is 64 bit")
 	dec, err := p.DecEntries()
 	if err != nil {
@@ -35,6 +35,8 @@ func checkC01(p *Prog, r *Report) {
 	ruleBND(p, r, fs, cont, entry, "BND", true)
 	ruleNILF(p, r, fs)
 	ruleTA(p, r, fs, cont)
+	ruleRecur(p, r, fs)
+	r.Floor("RECUR", 2)
 	r.Floor("EXP", 1)
 	r.Floor("REC", 4)
 	r.Floor("BND", 150)
